@@ -32,15 +32,29 @@ import (
 
 const builtWithOverlay = true
 
-var schSerial int64
 
-// nextSerial returns a suffix for the names of one execution: constant when the overlay's reset helper
-// is available (the names are removed again after the execution), unique otherwise.
+// Names: with the overlay's reset helper every execution uses the same names and they are removed again
+// afterwards (every execution starts with them absent).  Without it nothing can be removed from the
+// process-global registry; the names are then fixed and normalised (registered with decoration d3) before every
+// execution, so that every execution of the depth-first search still starts from the same state.
 func nextSerial(x *X) string {
 	if vrt.ResetHook != nil {
 		return "x"
 	}
-	return fmt.Sprintf("%dx%d", atomic.AddInt64(&schSerial, 1), x.Shard)
+	return "fixed"
+}
+
+// prepareNames normalises the registry for one execution and returns the model's initial state.
+func prepareNames(names ...string) map[string]int {
+	st := map[string]int{}
+	if vrt.ResetHook != nil {
+		return st
+	}
+	for _, n := range names {
+		decoration.RegisterDecorationName(n, decorFor(3))
+		st[n] = 3
+	}
+	return st
 }
 
 func resetNames(names ...string) {
@@ -155,7 +169,7 @@ func c17Exec(op c17Op, names []string, thread int, clock *int, log *[]regEvent) 
 	case "register":
 		decoration.RegisterDecorationName(names[op.name], decorFor(op.dec))
 	case "named":
-		ev.gotDecor = decorID(decoration.Named(names[op.name]), 2)
+		ev.gotDecor = decorID(decoration.Named(names[op.name]), 3)
 	case "list":
 		ev.list = decoration.RegisteredDecorationNames()
 	case "render":
@@ -168,7 +182,7 @@ func c17Exec(op c17Op, names []string, thread int, clock *int, log *[]regEvent) 
 		ev.renderErr = rerr != nil
 		ev.gotDecor = 0
 		if rerr == nil {
-			for i := 1; i <= 2; i++ {
+			for i := 1; i <= 3; i++ {
 				ref := texttable.New()
 				ref.AddHeaders("h")
 				ref.AddRowItems("a")
@@ -191,10 +205,13 @@ func c17Exec(op c17Op, names []string, thread int, clock *int, log *[]regEvent) 
 }
 
 // c17Linearizable: is there a total order of the events, consistent with real time, that a sequential map explains?
-func c17Linearizable(evs []regEvent, names []string) (bool, string) {
+func c17Linearizable(evs []regEvent, names []string, initial map[string]int) (bool, string) {
 	n := len(evs)
 	used := make([]bool, n)
 	state := map[string]int{}
+	for k, v := range initial {
+		state[k] = v
+	}
 	var explain string
 	var rec func(done int) bool
 	check := func(e regEvent) bool {
@@ -290,6 +307,7 @@ func runC17sched(x *X, family string, nthreads, opsPer int, bound int) {
 		names := []string{"n" + serial, "m" + serial, "never" + serial}
 		c.Logf("program %s (names %v)", desc, names)
 		defer resetNames(names...)
+		initial := prepareNames(names[0], names[1])
 		var log []regEvent
 		clock := 0
 		bodies := make([]func(), nthreads)
@@ -313,7 +331,7 @@ func runC17sched(x *X, family string, nthreads, opsPer int, bound int) {
 		}
 		c17Exec(c17Op{"list", 0, 0}, names, 99, &clock, &log)
 		x.Clause("C17.linearizable")
-		ok, why := c17Linearizable(log, names)
+		ok, why := c17Linearizable(log, names, initial)
 		if !ok {
 			x.Fail("C17.linearizable", tags, "no sequential order of the registry operations explains what was observed: %s; program %s", why, desc)
 			return
@@ -335,6 +353,7 @@ func runC17(x *X) {
 		serial := nextSerial(x)
 		names := []string{"n" + serial, "m" + serial, "never" + serial}
 		defer resetNames(names...)
+		initial := prepareNames(names[0], names[1])
 		var log []regEvent
 		clock := 0
 		var d []string
@@ -349,7 +368,7 @@ func runC17(x *X) {
 			c17Exec(op, names, 0, &clock, &log)
 			x.Transition(1)
 			x.Clause("C17.sequential_model")
-			if ok, why := c17Linearizable(log, names); !ok {
+			if ok, why := c17Linearizable(log, names, initial); !ok {
 				tg := []string{"sequential"}
 				if op.kind == "render" {
 					tg = append(tg, "fails_closed")
@@ -368,13 +387,15 @@ func runC17(x *X) {
 	ldepth := x.Pick(5, 6)
 	x.Explore("texttable-lifecycle", ExploreOpts{ShardDepth: 2, Bound: fmt.Sprintf("all sequences of <=%d operations {SetDecorationNamed(known a), SetDecorationNamed(known b), SetDecorationNamed(unknown), SetDecoration(custom), Register(unknown name), Render} on one TextTable", ldepth)}, func(c *Chooser) {
 		serial := nextSerial(x)
-		late := "late" + serial
+		late, never := "late"+serial, "never"+serial
 		defer resetNames(late)
+		lateInit := prepareNames(late)
 		tt := texttable.New()
 		tt.AddHeaders("h")
 		tt.AddRowItems("a")
 		cur, curName := decoration.UTF8BoxHeavy(), "default"
-		lateRegistered := false
+		lateRegistered := lateInit[late] != 0
+		lateDecor := lateInit[late]
 		var ops []string
 		renders := 0
 		for i := 0; i < ldepth; i++ {
@@ -394,14 +415,18 @@ func runC17(x *X) {
 				}
 				cur, curName = decoration.Named(n), n
 			case 3:
-				c.Logf("tt.SetDecorationNamed(%q)   // registered yet: %v", late, lateRegistered)
-				_, err := tt.SetDecorationNamed(late)
-				x.Clause("C17.fails_closed")
-				if (err != nil) != !lateRegistered {
-					x.Fail("C17.fails_closed", []string{"lifecycle"}, "SetDecorationNamed(%q) returned error=%v although registered=%v; ops %v", late, err, lateRegistered, ops)
+				name, known := late, lateRegistered
+				if c.Bool() {
+					name, known = never, false
 				}
-				if lateRegistered {
-					cur, curName = decorFor(1), late
+				c.Logf("tt.SetDecorationNamed(%q)   // registered: %v", name, known)
+				_, err := tt.SetDecorationNamed(name)
+				x.Clause("C17.fails_closed")
+				if (err != nil) != !known {
+					x.Fail("C17.fails_closed", []string{"lifecycle"}, "SetDecorationNamed(%q) returned error=%v although registered=%v; ops %v", name, err, known, ops)
+				}
+				if known {
+					cur, curName = decorFor(lateDecor), name
 				} else {
 					cur, curName = decoration.EmptyDecoration, "unknown"
 				}
@@ -412,7 +437,7 @@ func runC17(x *X) {
 			case 5:
 				c.Logf("decoration.RegisterDecorationName(%q, d1)   // does not change the table's current decoration", late)
 				decoration.RegisterDecorationName(late, decorFor(1))
-				lateRegistered = true
+				lateRegistered, lateDecor = true, 1
 			case 6:
 				c.Logf("tt.Render()   // current decoration: %s", curName)
 				out, err := tt.Render()
@@ -610,6 +635,7 @@ func runC16(x *X) {
 			}
 			serial := nextSerial(x)
 			defer resetNames("c16-" + serial)
+			prepareNames("c16-" + serial)
 			if withRegistry {
 				bodies = append(bodies, func() { c16RegistryBody(serial, &outs[nthreads], vrt.Yield) })
 			}
@@ -675,6 +701,36 @@ func init() {
 		Run: runC16,
 	})
 	extraCommands["racepass"] = racePass
+	extraCommands["selftest-reset"] = func(args []string) {
+		if vrt.ResetHook == nil {
+			os.Exit(1)
+		}
+		has := func(l []string, n string) int {
+			k := 0
+			for _, e := range l {
+				if e == n {
+					k++
+				}
+			}
+			return k
+		}
+		for round := 0; round < 3; round++ {
+			before := len(decoration.RegisteredDecorationNames())
+			decoration.RegisterDecorationName("selftest-a", decorFor(1))
+			decoration.RegisterDecorationName("selftest-b", decorFor(2))
+			l := decoration.RegisteredDecorationNames()
+			if has(l, "selftest-a") != 1 || has(l, "selftest-b") != 1 || len(l) != before+2 {
+				os.Exit(1)
+			}
+			vrt.ResetHook([]string{"selftest-a", "selftest-b"})
+			l = decoration.RegisteredDecorationNames()
+			if has(l, "selftest-a") != 0 || has(l, "selftest-b") != 0 || len(l) != before ||
+				decoration.Named("selftest-a") != decoration.EmptyDecoration || !sort.StringsAreSorted(l) {
+				os.Exit(1)
+			}
+		}
+		os.Exit(0)
+	}
 }
 
 // racePass: the same thread bodies, free-running under the Go race detector (supporting evidence only).
